@@ -26,6 +26,10 @@ from .C20 import normalise_expr
 
 RZ = "pyxel/util/randomize.py"
 EX = "pyxel/exposure/exposure.py"
+BOUNDED = {
+    r'islands\.build': 'archipelagos of 1 and 3 islands (every seed)',
+    r'draws_not_memoised': 'call chains inside pyxel/models up to depth 6',
+}      # unit-name / obligation-name patterns -> the family these obligations are proved for
 TRUSTED = ["determinism of everything that is not the legacy global generator (numba kernels, dask graph construction, pygmo given its seeds)",
            "np.random.Generator objects (default_rng) are private state", "threads sharing the global generator (dask threaded scheduler) are outside the sequential semantics (C07)",
            "model.frame / no_reseed / flow are frame and data-flow obligations decided on the AST and call graph (no arithmetic involved)"]
@@ -396,3 +400,5 @@ def island_seeds(u: Unit):
 from . import calibreport as _CRc  # noqa: E402
 unit("C04", "calib.ctor")(_CRc.calibration_ctor_unit)      # Calibration.__init__ keeps the seeds / settings it is given (0 included)
 unit("C04", "calib.island_build")(_CRc.build_unit)         # _build executed: island k gets the k-th draw of default_rng(pygmo_seed), 0 is a seed
+unit("C04", "mode.ctor")(_CRc.mode_ctor_unit)              # Exposure / Observation keep the pipeline seed they are given (0 included)
+unit("C04", "calib.archipelago_ctor")(_CRc.archipelago_ctor_unit)   # the archipelago keeps the optimiser seed / settings it builds the islands from
